@@ -73,7 +73,7 @@ def build_driver(name, variant="gcc", extra_src=(), extra_flags=(), lib_defines=
     return exe
 
 
-def run_driver(exe, args, out_path, mode="serial", env=None, timeout=120):
+def run_driver(exe, args, out_path, mode="serial", env=None, timeout=150):
     e = dict(os.environ)
     e.update({"ABTV_MODE": mode, "ABTV_OUT": out_path,
               "ASAN_OPTIONS": "abort_on_error=1:detect_leaks=0:handle_abort=0:allocator_may_return_null=1",
@@ -378,7 +378,7 @@ def tlc_lib_env():
     return {}
 
 
-def run_seeds(exe, scn, seed0, count, opts=(), mode="serial", env=None, timeout=300, max_restarts=6, tag=""):
+def run_seeds(exe, scn, seed0, count, opts=(), mode="serial", env=None, timeout=150, max_restarts=4, tag=""):
     """Run `count` seeds of a scenario in one process, restarting after the
     seed at which the process died.  Returns the list of runs (event lists);
     each run's Reset record gets 'cfg' = the option string."""
@@ -426,7 +426,7 @@ def sweep(jobs, nproc=16):
     """jobs: list of dict(exe, scn, seed0, count, opts, mode, env, timeout) -> flat list of runs"""
     with ThreadPoolExecutor(nproc) as ex:
         res = list(ex.map(lambda j: run_seeds(j["exe"], j["scn"], j["seed0"], j["count"], j.get("opts", ()),
-                                              j.get("mode", "serial"), j.get("env"), j.get("timeout", 300)), jobs))
+                                              j.get("mode", "serial"), j.get("env"), j.get("timeout", 150)), jobs))
     return [r for rs in res for r in rs]
 
 
